@@ -16,7 +16,7 @@ RULE = ("cases: every (degree 1..8, elevation count 1..4) pair x polygon class {
         "of non-Bezier input / non-positive counts / degree < 2. Non-trivial: degree >= 2 or elevation count >= 2; distinct = "
         "distinct case hash.")
 ASSUMPTIONS = ["exact de Casteljau in Fractions (nvmon.ref.bernstein_point)", "coordinates |x| <= 1e3, weights in [0.2,5]"]
-FLOORS = {'quick': {'elev-identity': 3000, 'endpoints': 300, 'reduce-inverts': 200, 'multi-step': 100, 'reject': 300},
+FLOORS = {'quick': {'elev-identity': 3000, 'endpoints': 300, 'reduce-inverts': 200, 'multi-step': 100, 'reject': 60},
           'thorough': {'elev-identity': 30000, 'reduce-inverts': 2000}}
 MANDATORY_TAGS = ['deg8', 'deg1', 'num4', 'cls:homogeneous', 'cls:rows', 'cls:cartesian']
 TECHNIQUE = ("runtime monitoring: exact polynomial-identity oracle (de Casteljau in rational arithmetic) on every "
